@@ -8,7 +8,7 @@ EXTRANGE_RULE = (
     "and a change list composed of per-node shapes that force range extensions (tail deleted -> under-full, node emptied, node reduced to 1..4 items, head / middle deleted, bulk insert -> split, "
     "single update, untouched); 8 directed families (under-full last node + emptied first node of the right worker + unchanged range; chains of under-full nodes over all workers; everything "
     "right of the first node emptied; a middle worker whose whole range is consumed; splits right of an under-full node) and a 16-step sweep of `rest(node 0) + node 2` across the capacity "
-    "(second merge inside a granted unchanged range). For the worker counts 1, 2, 3 and two of 4..8: `bprep` / `lprep` = the WorkerParams of the REAL prepare_workers line by line; `bmulti` / `lmulti` = the REAL "
+    "(second merge inside a granted unchanged range; the same behind a relink chain) and the family `tail merges` (the last worker's first node emptied, an untouched tail behind it, k = 1..4 successive merges of the left worker's under-full rest into that tail: leaf stage with the value sizes 900/1100/1300/700 that overflow a page and leave an under-full rest each time, branch stage with tiny tail nodes and with one overflowing merge — the geometry of the seeded `C13-extend-range-high-max`). For the worker counts 1, 2, 3 and two of 4..8: `bprep` / `lprep` = the WorkerParams of the REAL prepare_workers line by line; `bmulti` / `lmulti` = the REAL "
     "branch_stage::run / leaf_stage::run on the thread pool vs the Lean LTS of the protocol instantiated with the one-worker mirrors of BranchUpdater / LeafUpdater: every ExtendRangeResponse each "
     "worker received (entries, new_high_range, new_right_neighbor) in order, every worker's NodesTracker when it returned, the resulting level node by node, the freed old pages, the number of freed fresh "
     "pages; the mirror runs two opposite schedules and reports whether they agree (`sched=same`). Oracles independent of the model: content of the new level = BTreeMap fold of the changes (C01) = content of "
